@@ -193,6 +193,9 @@ class Recorder:
         self.evals = collections.Counter()
         self.events = collections.Counter()
         self.vio_counts = collections.Counter()
+        self.unlisted_counts = collections.Counter()
+        self.known_counts = collections.Counter()
+        self.classifier = None  # record -> known-finding id or None
         self.violations = []
         self.sigs = {}
         self.samples = []
@@ -212,21 +215,35 @@ class Recorder:
 
     def violation(self, monitor, **info):
         self.vio_counts[monitor] += 1
+        record = {
+            "property": self.prop,
+            "monitor": monitor,
+            "case": self.case,
+            "seed": self.seed,
+            "tier": self.tier,
+            "source": self.source,
+            "info": jsonable(info),
+        }
+        # classify now, so that every violation (not only the stored ones) is
+        # attributed either to a listed known finding or to "unlisted"
+        fid = None
+        if self.classifier is not None:
+            try:
+                fid = self.classifier(record)
+            except Exception:  # noqa: BLE001
+                fid = None
+        if fid is not None:
+            self.known_counts[fid] += 1
+            if self.known_counts[fid] <= 3:
+                record["known_finding"] = fid
+                self.violations.append(record)
+            return
+        self.unlisted_counts[monitor] += 1
         if (
-            self.vio_counts[monitor] <= MAX_STORED_PER_MONITOR
+            self.unlisted_counts[monitor] <= MAX_STORED_PER_MONITOR
             and len(self.violations) < MAX_STORED_VIOLATIONS
         ):
-            self.violations.append(
-                {
-                    "property": self.prop,
-                    "monitor": monitor,
-                    "case": self.case,
-                    "seed": self.seed,
-                    "tier": self.tier,
-                    "source": self.source,
-                    "info": jsonable(info),
-                }
-            )
+            self.violations.append(record)
 
     def event(self, kind, k=1):
         self.events[kind] += k
@@ -248,6 +265,8 @@ class Recorder:
             "evals": dict(self.evals),
             "events": dict(self.events),
             "vio_counts": dict(self.vio_counts),
+            "unlisted_counts": dict(self.unlisted_counts),
+            "known_counts": dict(self.known_counts),
             "violations": self.violations,
             "sigs": self.sigs,
             "samples": self.samples,
